@@ -218,12 +218,15 @@ def run(ctx):
     a_nt = lambda c: [enc_arr(c["rows"]), c["d"], enc_f(c["xy"][0]), enc_f(c["xy"][1]), enc_f(c["pts"][0][0]), enc_f(c["pts"][0][1])]
     trn = []
     for c in tr:
-        s, t = c["pts"][0]
-        # skip (nearly) singular Jacobians: the step is then ill-defined in floating point
-        d = c["d"]
-        def jd(v, which):
-            return None
         trn.append(c)
+        # the same triangle with a target that already agrees with B(s, t) in exactly ONE coordinate (the early exit
+        # "no refinement needed" must require both)
+        s, t = c["pts"][0]
+        bx = oq.tri_bernstein(c["rows"][0], c["d"], 1 - s - t, s, t)
+        by = oq.tri_bernstein(c["rows"][1], c["d"], 1 - s - t, s, t)
+        if all(F(float(v)) == v for v in (bx, by)):
+            trn.append(dict(c, xy=(bx, c["xy"][1])))
+            trn.append(dict(c, xy=(c["xy"][0], by)))
     correspond(ctx, "newton_refine_triangle", trn,
                [("shim.newton_refine_triangle", a_nt, val_out), ("hazmat.newton_refine_triangle", a_nt, val_out)],
                coq_nt, HEADER, "chk_newton_triangle", nontrivial=nt)
